@@ -121,6 +121,42 @@ NEEDS = {
  "C19-r5m1": ("the six recover closures folded into a type switch without a default", "a string panic (rounding under an out-of-range mode) inside a context operation is swallowed"),
  "C19-r5m2": ("setPrec drops the MaxPrec clamp", "Context precision above 2^32-1 wraps (1<<32+3 gives a 3-digit context)"),
  "C20-r5m1": ("SetInt and SetBitsExp share a precision-0 default without the MaxPrec clamp", "a slice of more than 226 million words (2^32 digits) into a precision-0 receiver: precision wraps to 34"),
+ "C01-r6m1": ("divRecursive no longer clears the quotient slice", "Quo by a divisor of >= 100 words into a receiver whose buffer is reused (C01 builds fresh receivers: caught by C06 and C10, which vary the receiver's history)"),
+ "C01-r6m2": ("umul returns early on certain over/underflow with the exponent sum formed in int", "32-bit builds only (GOARCH=386): no violation on amd64, where the pinned suite and every check run; out of scope, DESIGN section 7 item 17"),
+ "C02-r6m1": ("uadd/usub skip the alignment when the leading exponents are more than 2^17 words apart", "an operand of more than 2.49 million digits whose tail meets the small addend: (1+-10^-2600000) -+ 10^-2600000 is exactly 1"),
+ "C02-r6m2": ("SetInt splits integers of >= 4096 words as q*10^drop + m with Euclidean DivMod", "negative integers of ~79 000+ digits a hair below a rounding boundary: accuracy and directed modes mirrored"),
+ "C03-r6m1": ("FMA truncates the scratch product to exp(x)+exp(y)-lastDigit(u)+prec+2 words", "a short addend that cancels the leading part of the product exactly, the remainder starting more than 38 zeros further down: (10^100+1)^2 - (10^200+2*10^100) = 1e30"),
+ "C03-r6m2": ("uadd/usub replace an addend more than max(prec)+2+2^17 digits below the other by a one-digit stand-in", "only through FMA, whose scratch product is longer than its precision field says: a product with a short head, 140 000 zeros or nines and a small low part, plus a smaller addend of the opposite sign"),
+ "C06-r6m1": ("uquo cuts surplus low words off the dividend before dividing, sticky from the truncated division only", "precision far below the dividend's length, kept prefix an exact multiple, dropped part non-zero"),
+ "C06-r6m2": ("64-bit shortcuts in mul10WW_g / div10WW_g for 32-bit words with a widening slip", "32-bit builds only (GOARCH=386); out of scope, DESIGN section 7 item 17"),
+ "C07-r6m1": ("add10VW / sub10VW assembly clamp n to what is really max(len(z), len(x))", "len(x) > len(z) (decKaratsubaAdd's call shape) with a carry or borrow running through the whole destination"),
+ "C07-r6m2": ("shr10VU assembly shifts the low digits of x[len(z)] into the top word when len(x) > len(z)", "a call shape the library never uses (it always passes equal lengths; on the unchanged tree the assembly and Go versions of shl10VU already differ for such calls): outside the property's domain ('inputs satisfying the kernel's precondition ... the way the library calls it')"),
+ "C08-r6m1": ("the two 'exponent overflow' exits of scan share one error and the second no longer resets the receiver to zero", "a literal with a binary exponent outside the int32 range and more mantissa digits than the receiver's precision: the abandoned receiver is an unrounded finite value"),
+ "C08-r6m2": ("SetBitsExp skips normalisation when handed the receiver's own slice", "BitsExp, edit the words in place so that the top word drops below 10^18, SetBitsExp with the same slice header"),
+ "C09-r6m1": ("UnmarshalText accepts the text '<nil>' (what a nil pointer marshals to) and resets the receiver", "that five-byte text on a receiver with non-zero precision or a non-default mode"),
+ "C09-r6m2": ("Sqrt's argument checks reordered: the sign test comes after x.MantExp(z)", "Sqrt of a negative finite x into a different receiver: after the ErrNaN panic z carries x's precision and mode"),
+ "C10-r6m1": ("uquo divides only the leading words of an over-long dividend, as a view into x.mant at an offset", "x.Quo(x, y) with a one-word y and x carrying a few zero words below its value (gob payload with zero words appended)"),
+ "C10-r6m2": ("divLarge skips the scaled copy of a divisor that needs no scaling (>= 100 words)", "y.Quo(x, y) with a divisor of 1900+ digits whose leading digit is >= 5: index out of range"),
+ "C11-r6m1": ("dec.scan fills a buffer sized from the reader's Len(), growFront computes the offset before extending", "fmt.Sscan of a text of 703+ digits into a fresh receiver (readers without Len), or Parse of 2.49 million digits"),
+ "C11-r6m2": ("fmtE/fmtB/fmtP share an appendExp helper, callers subtract in int", "32-bit builds only (GOARCH=386); out of scope, DESIGN section 7 item 17"),
+ "C12-r6m1": ("5^n for negative binary exponents built by a pow5 helper whose digit estimate n*69897/100000+1 is one short", "binary exponent exactly -13301, -26602, -37767, ... at a precision that holds the whole expansion"),
+ "C12-r6m2": ("scan returns 'exponent overflow' instead of +-Inf when rounding carries past MaxExp", "base-10 literal at exponent MaxExp with leading nines and more digits than the precision, round-up mode"),
+ "C13-r6m1": ("writeMultiple writes padding from 4 KiB blocks, peeling one full block off under an if", "field widths needing more than 8192 padding bytes"),
+ "C13-r6m2": ("fmtF appends the integer part's trailing zeros with Sprintf(\"%0*d\")", "f layout of a value with more than 1 000 000 trailing zeros (fmt's width limit)"),
+ "C14-r6m1": ("Int64/Uint64 keep only the top two mantissa words before shifting", "32-bit builds only (GOARCH=386, 9-digit words); out of scope, DESIGN section 7 item 17"),
+ "C14-r6m2": ("decToNat's one-word fast path widened to two words stored as one big.Word", "32-bit builds only (GOARCH=386); out of scope, DESIGN section 7 item 17"),
+ "C15-r6m1": ("Float64/Float32 trust the intermediate's accuracy when the result is >= 4 units away from it", "a mantissa of 8000+ digits at one of the isolated exponents where floatPow5 errs by 3.5..4.5 units, x a hair from a float: accuracy on the wrong side"),
+ "C15-r6m2": ("floatPow5 caches recent powers keyed by uint32(n)<<16 | prec", "two consecutive conversions at the same precision whose n differ by k*65536 (one of them with ~65 000 digits)"),
+ "C16-r6m1": ("Cmp fast path for both precisions <= 19 compares exponent and mant[0]", "a small-precision value whose mantissa carries zero words below its significant word (gob payload with zero words appended)"),
+ "C16-r6m2": ("ucmp compares exponents by the sign of int(x.exp)-int(y.exp)", "32-bit builds only (GOARCH=386); out of scope, DESIGN section 7 item 17"),
+ "C17-r6m1": ("GobDecode copies only ceil(R/19)+1 top words when the receiver's precision R is below the sender's, counted in uint32", "receiver precision in [MaxPrec-17, MaxPrec-1] with a sender precision above it and more than 19 digits"),
+ "C17-r6m2": ("GobDecode accepts a finite payload with precision field 0 when the receiver has its own precision", "corrupt payload, receiver precision below the mantissa's digit count: malformed result without an error"),
+ "C18-r6m1": ("Append's constants 2 and 0.01 allocated once at package level, their sign written per call", "concurrent Text('f') of values below the last printed digit"),
+ "C18-r6m2": ("FMA computes long products in a pooled buffer and returns it to the pool before the addition", "concurrent FMA on shared operands of 30+ words into receivers with less than half the product's precision"),
+ "C19-r6m1": ("NewFloat64 gets the operators' recover handler, which assigns the error unconditionally", "a context that is already latched, then NewFloat64(NaN) before Err(): the first error is lost"),
+ "C19-r6m2": ("NewFloat routes big.Floats of <= 53 bits through float64 unless that over- or underflows completely", "a value between 2^-1075 and 2^-1022 with more bits than a denormal holds"),
+ "C20-r6m1": ("SetBitsExp normalises only the leading words of a long slice, out of place into the receiver's buffer", "the slice is the receiver's own array extended within its capacity by 2+ words with a top word that has leading zero digits: overlapping shift"),
+ "C20-r6m2": ("SetMantExp decides over/underflow early with >= / <= where > / < is meant", "mantissa exponent MinExp with offset +4294967295 (or MaxExp with -4294967295): Inf / 0 instead of a finite value at the other end"),
 }
 def main():
     want = sys.argv[1:]
@@ -140,7 +176,7 @@ def main():
             shutil.copy(d, os.path.join(out, "patch.diff"))
             shutil.copy(demo, os.path.join(out, "demo_test.go.txt"))
             sub = "context" if re.search(r"^package context", open(demo).read(), re.M) else "."
-            extra = {"C02-r3m1": ["C01"], "C19-r3m2": ["C01", "C04"], "C04-m1": ["C03", "C10"], "C04-m2": ["C01", "C03"], "C08-m1": ["C01", "C12"], "C02-m2": ["C10"], "C07-m1": [], "C18-m1": [], "C04-r4m1": ["C03"], "C04-r4m2": ["C15"], "C19-r4m2": ["C03", "C04"], "C08-r4m2": ["C09", "C14"], "C08-r4m1": ["C09", "C10"], "C02-r4m1": ["C01"], "C02-r4m2": ["C12"], "C09-r4m2": ["C15"], "C10-r4m2": ["C06", "C01"], "C06-r4m1": ["C10", "C01"], "C06-r4m2": ["C01", "C02"], "C16-r4m1": ["C17"], "C17-r4m1": ["C08", "C18"], "C20-r4m1": ["C08"], "C13-r5m1": ["C18"], "C08-r5m2": ["C17"], "C06-r5m1": ["C01", "C02"], "C04-r5m2": ["C03"], "C02-r5m1": ["C01"], "C02-r5m2": ["C01"], "C01-r5m2": ["C02"], "C10-r5m1": ["C14"], "C06-r5m2": ["C10"], "C17-r5m1": ["C08"]}.get(sid, [])
+            extra = {"C02-r3m1": ["C01"], "C19-r3m2": ["C01", "C04"], "C04-m1": ["C03", "C10"], "C04-m2": ["C01", "C03"], "C08-m1": ["C01", "C12"], "C02-m2": ["C10"], "C07-m1": [], "C18-m1": [], "C04-r4m1": ["C03"], "C04-r4m2": ["C15"], "C19-r4m2": ["C03", "C04"], "C08-r4m2": ["C09", "C14"], "C08-r4m1": ["C09", "C10"], "C02-r4m1": ["C01"], "C02-r4m2": ["C12"], "C09-r4m2": ["C15"], "C10-r4m2": ["C06", "C01"], "C06-r4m1": ["C10", "C01"], "C06-r4m2": ["C01", "C02"], "C16-r4m1": ["C17"], "C17-r4m1": ["C08", "C18"], "C20-r4m1": ["C08"], "C13-r5m1": ["C18"], "C08-r5m2": ["C17"], "C06-r5m1": ["C01", "C02"], "C04-r5m2": ["C03"], "C02-r5m1": ["C01"], "C02-r5m2": ["C01"], "C01-r5m2": ["C02"], "C10-r5m1": ["C14"], "C06-r5m2": ["C10"], "C17-r5m1": ["C08"], "C01-r6m1": ["C06", "C10"], "C08-r6m1": ["C12"], "C08-r6m2": ["C20"], "C03-r6m2": ["C01"], "C10-r6m1": ["C01"], "C02-r6m1": ["C01"], "C02-r6m2": ["C14"], "C06-r6m1": ["C01", "C02"], "C18-r6m1": ["C13"]}.get(sid, [])
             env = dict(os.environ)
             if prop == "C18":
                 env["DEMO_RACE"] = "race"
